@@ -103,11 +103,8 @@ let () =
         | ["neb"; s] -> b2s (need_expand_brace (str_of_field s))
         | ["ng"; s] -> b2s (needs_globbing (str_of_field s))
         | ["sdd"; s] -> b2s (should_do_dollar (str_of_field s))
-        | ["one"; w; s] -> q (expand_one_env (world_of_field w) (str_of_field s))
-        | ["loop"; w; fuel; s] ->
-            show_res q (expand_env_loop (nat_of_int (int_of_string fuel)) (world_of_field w) (str_of_field s))
-        | ["env"; w; fuel; t] ->
-            show_res show_toks (expand_env (nat_of_int (int_of_string fuel)) (world_of_field w) (toks_of_field t))
+        | ["once"; w; s] -> q (expand_env_once (world_of_field w) (str_of_field s))
+        | ["env"; w; _; t] -> show_toks (expand_env (world_of_field w) (toks_of_field t))
         | ["bgi"; s; d] ->
             show_res (fun (o, r) -> "(" ^ qlist o ^ "," ^ q r ^ ")")
               (brace_getitem (str_of_field s) (nat_of_int (int_of_string d)))
@@ -131,7 +128,7 @@ let () =
             q (expand_template g nm (str_of_field t))
         | ["den"; w; ps] ->
             let w = world_of_field w and ps = pieces_of_field ps in
-            q (render_pieces ps) ^ " " ^ q (den_pieces w ps) ^ " wf=" ^ b2s (wf_pieces ps) ^ " dom=" ^ b2s (c10_dom w ps)
+            q (render_pieces ps) ^ " " ^ q (den_pieces w ps) ^ " wf=" ^ b2s (wf_pieces ps) ^ " gate=" ^ b2s (gate_ok ps)
         | ["term"; s] ->
             let t = parse_term (utf8_decode (dec_bytes s)) in
             q (render_term t) ^ " " ^ qlist (den_term t) ^ " wf=" ^ b2s (wf_term t)
